@@ -70,7 +70,9 @@ type c06Sub struct {
 	ch      <-chan struct{}
 	sctx    context.Context // NewStateCtx
 	subStep int
-	subTx   int // number of finished transitions at subscribe
+	// WhenArgs: the state was not active when subscribing
+	inactiveAtSub bool
+	subTx         int // number of finished transitions at subscribe
 	// cond evaluates the waiting condition on a machine time vector + queue
 	// tick; nil for kinds judged separately
 	cond func(tm am.Time, qt uint64) bool
@@ -95,6 +97,10 @@ func runC06(t *testing.T, rc *core.RunCtx) {
 	}
 	if rc.Plan.Draw(4) == 0 {
 		cfg.handlers = false
+		// no handler to park in: subscribers get their chance between the start
+		// of a transition and the moment its target is applied through the
+		// tracer's TransitionStart
+		cfg.pParkTxStart = 2
 	}
 	p := genPlan(rc.Plan, &cfg)
 	tp := rc.Plan
@@ -273,7 +279,7 @@ func runC06(t *testing.T, rc *core.RunCtx) {
 					if processed && tx.opid == sb.plan.opid && len(w.calls) >= 0 {
 						st := sb.plan.states[0]
 						activated := has(tx.activeEnd, st) && (!has(tx.before, st) || (w.eff[st].Multi && has(tx.called, st) && tx.typ != am.MutationRemove))
-						if activated && tx.initStep > sb.subStep && sb.mustSince == "" {
+						if activated && (tx.initStep > sb.subStep || (sb.inactiveAtSub && !w.eff[st].Multi)) && sb.mustSince == "" {
 							sb.mustSince = fmt.Sprintf("%s was activated with args op=%s in transition #%d", st, sb.plan.opid, tx.idx)
 						} else if activated && sb.maySince == "" {
 							// subscribed while that transition was running: its
@@ -378,6 +384,9 @@ func runC06(t *testing.T, rc *core.RunCtx) {
 						sb.maySince = "its query held on the view at subscribing, inside a transition's subscription window"
 					}
 				case skWhenArgs:
+					// not yet active now: an activation that follows, also one by
+					// the transition already running, comes after this subscription
+					sb.inactiveAtSub = !m.Is1(pl.states[0])
 					sb.ch = m.WhenArgs(pl.states[0], am.A{"op": pl.opid}, ctx)
 				case skWhenQueue:
 					sb.atSubscribe = true
